@@ -53,14 +53,14 @@ Fixpoint lockstep (st : kitty) (s : tstore) (ops : list (op * bool)) : list tsto
 Definition step_items (st : kitty) (o : op) : list item :=
   match o with
   | OpDraw img hash pos => draw_items st img hash pos
-  | OpErase img hash pos => [del_item (image_id hash) (option_map placement_id pos)]
+  | OpErase img hash pos => [del_item (image_id st hash) (option_map placement_id pos)]
   | OpEvent ev => handle_items st ev
   end.
 
 (* everything in the cache was stored under its own id, is well formed and has pixels *)
 Definition cache_wf (st : kitty) : Prop :=
   forall id img hash, lookup id (k_imgs st) = Some (img, hash) ->
-    image_id hash = id /\ image_wf img /\ nonempty img.
+    lookup hash (k_ids st) = Some id /\ image_wf img /\ nonempty img.
 
 Lemma term_step_items lost st s o : cache_wf st -> op_wf o ->
   term_step lost st s o = store_run (pre_store lost o s) (step_items st o).
@@ -69,7 +69,8 @@ Proof.
   destruct o as [img hash pos|img hash pos|ev]; cbn [op_wf step_items] in *.
   - destruct (draw st img hash pos) as [b st'] eqn:E. cbn [fst].
     pose proof (parse_draw st img hash pos Hw) as P. rewrite E in P. cbn [fst] in P. rewrite P. reflexivity.
-  - cbn [fst]. rewrite parse_erase. reflexivity.
+  - destruct (erase st img hash pos) as [b st'] eqn:E. cbn [fst].
+    pose proof (parse_erase st img hash pos) as P. rewrite E in P. cbn [fst] in P. rewrite P. reflexivity.
   - destruct (handle st ev) as [[b st'] r] eqn:E. cbn [fst].
     assert (Hwf : forall id img hash, lookup id (k_imgs st) = Some (img, hash) -> image_wf img)
       by (intros id img hash Hl; apply (Hc id img hash Hl)).
@@ -187,7 +188,12 @@ Record Inv (strict : bool) (st : kitty) (s : tstore) : Prop := mkInv {
   inv_places : places_valid s;
   (* ... which the handler still counts as transmitted *)
   inv_places_cached : strict = true ->
-                      forall p, In p (t_places s) -> lookup (place_id p) (k_imgs st) <> None }.
+                      forall p, In p (t_places s) -> lookup (place_id p) (k_imgs st) <> None;
+  (* every remembered id is a valid one *)
+  inv_ids : ids_range (k_ids st) }.
+
+Lemma image_id_known st hash id : lookup hash (k_ids st) = Some id -> image_id st hash = id.
+Proof. intros H. unfold image_id, id_in. rewrite H. reflexivity. Qed.
 
 Definition keys (st : kitty) : list N := map fst (k_imgs st).
 
@@ -209,6 +215,7 @@ Proof.
   - intros id img hash H. discriminate.
   - intros p H. contradiction.
   - intros _ p H. contradiction.
+  - intros h i H. discriminate.
 Qed.
 
 Lemma places_valid_sub s imgs places :
@@ -220,38 +227,51 @@ Proof.
 Qed.
 
 (* the invariant only looks at the cache of the handler state *)
-Lemma inv_same_cache strict st st' s : k_imgs st' = k_imgs st -> Inv strict st s -> Inv strict st' s.
+(* ... and at the id table, which may have grown *)
+Lemma inv_same_cache strict st st' s : k_imgs st' = k_imgs st ->
+  (forall h i, lookup h (k_ids st) = Some i -> lookup h (k_ids st') = Some i) -> ids_range (k_ids st') ->
+  Inv strict st s -> Inv strict st' s.
 Proof.
-  intros E [Hc He Hp Hi Hv Hpc]. constructor; try assumption.
-  - unfold cache_wf. rewrite E. exact Hc.
+  intros E Hgrow Hr [Hc He Hp Hi Hv Hpc Hir]. constructor; try assumption.
+  - intros id img hash Hl. rewrite E in Hl. destruct (Hc _ _ _ Hl) as (Hk & Hw & Hn).
+    split; [apply Hgrow, Hk|split; assumption].
   - rewrite E. exact Hi.
   - rewrite E. exact Hpc.
 Qed.
 
+Lemma inv_note strict st s hash sup imgs : imgs = k_imgs st -> Inv strict st s ->
+  Inv strict (mkKitty imgs (ids_note (k_ids st) hash) sup) s.
+Proof.
+  intros -> HI. apply (inv_same_cache strict st); [reflexivity| |apply ids_note_range, (inv_ids _ _ _ HI)|exact HI].
+  cbn [k_ids]. intros h i Hl. apply lookup_note_kept, Hl.
+Qed.
+
 Lemma inv_clear strict st s : Inv strict st s -> Inv strict st (clear_log s).
-Proof. intros [Hc He Hp Hi Hv Hpc]. constructor; assumption. Qed.
+Proof. intros [Hc He Hp Hi Hv Hpc Hir]. constructor; assumption. Qed.
 
 Lemma inv_set_cursor strict st s c sv : Inv strict st s -> Inv strict st (set_cursor c sv s).
-Proof. intros [Hc He Hp Hi Hv Hpc]. constructor; assumption. Qed.
+Proof. intros [Hc He Hp Hi Hv Hpc Hir]. constructor; assumption. Qed.
 
 (* the terminal forgets image id; the handler's cache has no entry for it (any more) *)
 Lemma inv_forget strict st st' s id :
   lookup id (k_imgs st') = None ->
   (forall id', id' <> id -> lookup id' (k_imgs st') = lookup id' (k_imgs st)) ->
+  k_ids st' = k_ids st ->
   Inv strict st s -> Inv strict st' (store_forget id s).
 Proof.
-  intros Hnone Hsame [Hc He Hp Hi Hv Hpc].
+  intros Hnone Hsame Eids [Hc He Hp Hi Hv Hpc Hir].
   assert (Hsub : forall id' x, lookup id' (k_imgs st') = Some x -> id' <> id /\ lookup id' (k_imgs st) = Some x).
   { intros id' x Hx. destruct (N.eq_dec id' id) as [->|Hne]; [rewrite Hnone in Hx; discriminate|].
     split; [exact Hne|]. rewrite <- Hsame by exact Hne. exact Hx. }
   constructor; try assumption.
-  - intros id' img hash Hl. destruct (Hsub _ _ Hl) as [_ Hl']. exact (Hc _ _ _ Hl').
+  - intros id' img hash Hl. destruct (Hsub _ _ Hl) as [_ Hl']. rewrite Eids. exact (Hc _ _ _ Hl').
   - intros id' img hash Hl. destruct (Hsub _ _ Hl) as [Hne Hl']. cbn [store_forget t_images].
     rewrite img_lookup_filter_other by exact Hne. exact (Hi _ _ _ Hl').
   - intros p Hin. cbn [store_forget t_places t_images] in *. apply filter_In in Hin as [Hin Hf].
     rewrite img_lookup_filter_other by lia. apply Hv, Hin.
   - intros Hs p Hin. cbn [store_forget t_places] in Hin. apply filter_In in Hin as [Hin Hf].
     rewrite Hsame by lia. apply (Hpc Hs), Hin.
+  - rewrite Eids. exact Hir.
 Qed.
 
 Lemma nmem_filter_self id l : nmem id (filter (fun x => negb (x =? id)) l) = false.
@@ -262,21 +282,22 @@ Qed.
 
 (* drawing an image that is not cached, on any store related to the handler by the invariant *)
 Lemma inv_draw_fresh strict st s sup img hash pid q : Inv strict st s -> image_wf img -> nonempty img ->
-  lookup (image_id hash) (k_imgs st) = None -> 1 <= pid <= ID_MAX ->
-  let id := image_id hash in
+  lookup (image_id st hash) (k_imgs st) = None -> 1 <= pid <= ID_MAX ->
+  let id := image_id st hash in
   let s' := store_run s (tx_items id q img ++ [put_item id pid q]) in
-  Inv strict (mkKitty ((id, (img, hash)) :: k_imgs st) sup) s' /\
+  Inv strict (mkKitty ((id, (img, hash)) :: k_imgs st) (ids_note (k_ids st) hash) sup) s' /\
   t_sent s' = (id, content_of img) :: t_sent s /\
   In (id, pid, t_cursor s) (t_places s') /\ t_cursor s' = t_cursor s /\ t_saved s' = t_saved s.
 Proof.
-  intros [Hc He Hp Hi Hv Hpc] Hwf Hne Hl Hpid id s'.
-  pose proof (image_id_range hash) as Hid. fold id in Hid, Hl.
+  intros [Hc He Hp Hi Hv Hpc Hir] Hwf Hne Hl Hpid id s'.
+  pose proof (image_id_range st hash Hir) as Hid. fold id in Hid, Hl.
   unfold s'. rewrite (run_draw_fresh s id pid q img Hp Hwf Hne Hid Hpid).
   split; [|repeat split; try reflexivity; cbn [t_places]; left; reflexivity].
-  constructor; cbn [k_imgs t_errs t_pending t_images]; try assumption; try reflexivity.
+  constructor; cbn [k_imgs k_ids t_errs t_pending t_images]; try assumption; try reflexivity.
   - intros id' img' hash' Hl'. cbn [lookup k_imgs] in Hl'. destruct (id =? id') eqn:E.
-    + apply N.eqb_eq in E. inversion Hl'; subst img' hash' id'. split; [reflexivity|split; assumption].
-    + exact (Hc _ _ _ Hl').
+    + apply N.eqb_eq in E. inversion Hl'; subst img' hash' id'.
+      split; [apply lookup_note_same|split; assumption].
+    + destruct (Hc _ _ _ Hl') as (Hk & Hw' & Hn'). split; [apply lookup_note_kept, Hk|split; assumption].
   - intros id' img' hash' Hl'. cbn [lookup k_imgs] in Hl'. cbn [img_lookup]. destruct (id =? id') eqn:E.
     + inversion Hl'; subst img' hash'. reflexivity.
     + rewrite img_lookup_filter_other by lia. exact (Hi _ _ _ Hl').
@@ -289,6 +310,7 @@ Proof.
     + cbn [place_id fst]. rewrite N.eqb_refl. discriminate.
     + apply filter_In in Hin as [Hin _]. apply filter_In in Hin as [Hin Hf].
       replace (id =? place_id p) with false by lia. apply (Hpc Hs), Hin.
+  - apply ids_note_range, Hir.
 Qed.
 
 Lemma snd_step_draw st img hash pos : snd (step st (OpDraw img hash pos)) = snd (draw st img hash pos).
@@ -299,18 +321,18 @@ Lemma step_draw_ok strict lost st s img hash pos : Inv strict st s -> image_wf i
   Inv strict (snd (step st o)) (term_step lost st s o) /\
   sent_fact o st (snd (step st o)) (term_step lost st s o).
 Proof.
-  intros HI Hwf o. pose proof HI as [Hc He Hp Hi Hv Hpc].
+  intros HI Hwf o. pose proof HI as [Hc He Hp Hi Hv Hpc Hir].
   unfold o. rewrite term_step_items by assumption. rewrite snd_step_draw.
   cbn [pre_store step_items]. unfold sent_fact, live_after. cbn [err_of]. unfold draw_items.
   destruct (nonempty_dec img) as [Hne|Hne].
   - destruct Hne as [Hh Hw]. replace ((im_height img =? 0) || (im_width img =? 0)) with false by lia.
-    unfold cached. destruct (lookup (image_id hash) (k_imgs st)) as [[img0 hash0]|] eqn:Hl.
+    unfold cached. destruct (lookup (image_id st hash) (k_imgs st)) as [[img0 hash0]|] eqn:Hl.
     + (* cached: only the placement *)
       rewrite (draw_cached st img hash pos _ (conj Hh Hw) Hl). cbn [snd].
       rewrite (run_put (clear_log s) _ _ _ (content_of img0));
-        [|exact Hp|apply image_id_range|apply placement_id_range|exact (Hi _ _ _ Hl)].
+        [|exact Hp|apply image_id_range, Hir|apply placement_id_range|exact (Hi _ _ _ Hl)].
       cbn [t_sent clear_log]. split; [|reflexivity].
-      apply (inv_same_cache strict st); [reflexivity|].
+      apply inv_note; [reflexivity|].
       constructor; cbn [t_errs t_pending t_images clear_log]; try assumption.
       -- intros p Hin. cbn [t_places t_images clear_log] in *. destruct Hin as [<-|Hin].
          ++ cbn [place_id fst]. rewrite (Hi _ _ _ Hl). discriminate.
@@ -335,10 +357,11 @@ Lemma step_erase_ok strict lost st s img hash pos : Inv strict st s -> image_wf 
   Inv strict (snd (step st o)) (term_step lost st s o) /\
   sent_fact o st (snd (step st o)) (term_step lost st s o).
 Proof.
-  intros HI Hwf o. pose proof HI as [Hc He Hp Hi Hv Hpc].
-  unfold o. rewrite term_step_items by assumption. cbn [step snd pre_store step_items].
-  rewrite run_del; [|exact Hp|apply image_id_range|destruct pos; cbn [option_map]; [apply placement_id_range|exact I]].
+  intros HI Hwf o. pose proof HI as [Hc He Hp Hi Hv Hpc Hir].
+  unfold o. rewrite term_step_items by assumption. cbn [step erase snd pre_store step_items].
+  rewrite run_del; [|exact Hp|apply image_id_range, Hir|destruct pos; cbn [option_map]; [apply placement_id_range|exact I]].
   unfold sent_fact, live_after. cbn [err_of t_sent clear_log]. split; [|reflexivity].
+  unfold note_id. apply inv_note; [reflexivity|].
   constructor; cbn [t_errs t_pending t_images clear_log]; try assumption.
   - intros p Hin. cbn [t_places t_images clear_log] in *. apply filter_In in Hin as [Hin _]. apply Hv, Hin.
   - intros Hs p Hin. cbn [t_places clear_log] in *. apply filter_In in Hin as [Hin _]. apply (Hpc Hs), Hin.
@@ -359,19 +382,21 @@ Definition pre_err (lost : bool) (id : N) (s : tstore) : tstore :=
 Lemma inv_pre_err strict lost st st' s id : (strict = true -> lost = true) ->
   lookup id (k_imgs st') = None ->
   (forall id', id' <> id -> lookup id' (k_imgs st') = lookup id' (k_imgs st)) ->
+  k_ids st' = k_ids st ->
   Inv strict st s -> Inv strict st' (pre_err lost id s).
 Proof.
-  intros Hsl Hnone Hsame HI. unfold pre_err. destruct lost.
-  - apply (inv_forget strict st st' (clear_log s) id Hnone Hsame), inv_clear, HI.
+  intros Hsl Hnone Hsame Eids HI. unfold pre_err. destruct lost.
+  - apply (inv_forget strict st st' (clear_log s) id Hnone Hsame Eids), inv_clear, HI.
   - destruct strict; [specialize (Hsl eq_refl); discriminate|].
-    destruct HI as [Hc He Hp Hi Hv Hpc].
+    destruct HI as [Hc He Hp Hi Hv Hpc Hir].
     assert (Hsub : forall id' x, lookup id' (k_imgs st') = Some x -> lookup id' (k_imgs st) = Some x).
     { intros id' x Hx. destruct (N.eq_dec id' id) as [->|Hne]; [rewrite Hnone in Hx; discriminate|].
       rewrite <- Hsame by exact Hne. exact Hx. }
     constructor; cbn [clear_log t_errs t_pending t_images t_places]; try assumption.
-    + intros id' img hash Hl. exact (Hc _ _ _ (Hsub _ _ Hl)).
+    + intros id' img hash Hl. rewrite Eids. exact (Hc _ _ _ (Hsub _ _ Hl)).
     + intros id' img hash Hl. exact (Hi _ _ _ (Hsub _ _ Hl)).
     + intros Hs. discriminate.
+    + rewrite Eids. exact Hir.
 Qed.
 
 Lemma pre_err_facts lost id s : t_sent (pre_err lost id s) = [] /\ t_pending (pre_err lost id s) = t_pending s /\
@@ -386,7 +411,7 @@ Lemma step_event_ok strict lost st s ev : (strict = true -> lost = true) -> Inv 
   Inv strict (snd (step st o)) (term_step lost st s o) /\
   sent_fact o st (snd (step st o)) (term_step lost st s o).
 Proof.
-  intros Hsl HI o. pose proof HI as [Hc He Hp Hi Hv Hpc].
+  intros Hsl HI o. pose proof HI as [Hc He Hp Hi Hv Hpc Hir].
   unfold o. rewrite term_step_items by (try assumption; exact I).
   unfold sent_fact, live_after. cbn [step step_items].
   destruct ev as [id pl err|].
@@ -402,26 +427,28 @@ Proof.
   2:{ (* the handler does not know the image: nothing written, nothing changes *)
       assert (E : match pl with Some _ => @nil item | None => [] end = []) by (destruct pl; reflexivity).
       rewrite E. cbn [snd fst store_run fold_left]. rewrite Hs0. split.
-      - apply (inv_pre_err strict lost st st s id Hsl Hl); [reflexivity|exact HI].
+      - apply (inv_pre_err strict lost st st s id Hsl Hl); [reflexivity|reflexivity|exact HI].
       - symmetry. apply filter_keys_absent, Hl. }
-  destruct (Hc _ _ _ Hl) as (Hid & Hwf & Hne).
+  destruct (Hc _ _ _ Hl) as (Hlk & Hwf & Hne).
+  pose proof (image_id_known st hash id Hlk) as Hid.
   destruct pl as [p|].
   2:{ (* no placement: the image is dropped from the cache *)
       cbn [snd fst store_run fold_left]. rewrite Hs0. split.
-      - apply (inv_pre_err strict lost st _ s id Hsl); [apply lookup_remove_same| |exact HI].
+      - apply (inv_pre_err strict lost st _ s id Hsl); [apply lookup_remove_same| |reflexivity|exact HI].
         cbn [k_imgs]. intros id' Hne'. apply lookup_remove_other, Hne'.
       - unfold keys. cbn [k_imgs]. apply keys_remove. }
   (* placement given: cursor save, move, re-transmission and placement, cursor restore *)
-  set (st1 := mkKitty (remove_key id (k_imgs st)) (Some 2)).
+  set (st1 := mkKitty (remove_key id (k_imgs st)) (k_ids st) (Some 2)).
   set (pos := placement_to_pos p).
-  assert (Hl1 : lookup (image_id hash) (k_imgs st1) = None) by (rewrite Hid; apply lookup_remove_same).
-  rewrite (draw_fresh st1 img hash pos Hne Hl1). cbn [snd fst k_imgs k_suppress].
+  change (image_id st hash) with (image_id st1 hash) in Hid.
+  assert (Hl1 : lookup (image_id st1 hash) (k_imgs st1) = None) by (rewrite Hid; apply lookup_remove_same).
+  rewrite (draw_fresh st1 img hash pos Hne Hl1). cbn [snd fst k_imgs k_ids k_suppress].
   unfold draw_items. destruct Hne as [Hh Hw].
   replace ((im_height img =? 0) || (im_width img =? 0)) with false by lia.
   unfold cached. rewrite Hl1.
   set (s0 := pre_err lost id s) in *.
   assert (HI0 : Inv strict st1 s0).
-  { apply (inv_pre_err strict lost st st1 s id Hsl); [apply lookup_remove_same| |exact HI].
+  { apply (inv_pre_err strict lost st st1 s id Hsl); [apply lookup_remove_same| |reflexivity|exact HI].
     intros id' Hne'. apply lookup_remove_other, Hne'. }
   rewrite !store_run_cons.
   assert (Hp0 : t_pending s0 = None) by (rewrite Hp0'; exact Hp).
@@ -436,11 +463,11 @@ Proof.
   rewrite store_run_app.
   destruct (inv_draw_fresh strict st1 s2 (k_suppress st) img hash (placement_id pos) (qval st1) HI2 Hwf (conj Hh Hw) Hl1
               (placement_id_range pos)) as (HI3 & Hs3 & _ & _ & _).
-  set (s3 := store_run s2 (tx_items (image_id hash) (qval st1) img ++
-                           [put_item (image_id hash) (placement_id pos) (qval st1)])) in *.
+  set (s3 := store_run s2 (tx_items (image_id st1 hash) (qval st1) img ++
+                           [put_item (image_id st1 hash) (placement_id pos) (qval st1)])) in *.
   cbn [store_run fold_left].
   assert (E4 : item_step s3 IRestore =
-               set_cursor (match t_saved s3 with Some c => c | None => None end) (t_saved s3) s3).
+               set_cursor (match t_saved s3 with Some c => c | None => Some (0, 0) end) (t_saved s3) s3).
   { cbn [item_step]. rewrite (inv_pending _ _ _ HI3). reflexivity. }
   rewrite E4. rewrite Hid in *. split.
   - apply inv_set_cursor. exact HI3.
@@ -514,47 +541,47 @@ Qed.
    (id, pid); if it had to transmit, the terminal dropped the old placements of the id with the old data *)
 Theorem draw_places_gen strict lost st s img hash pos : Inv strict st s -> image_wf img -> nonempty img ->
   places_of (term_step lost st s (OpDraw img hash pos)) =
-  (image_id hash, placement_id pos)
-    :: filter (fun x => negb (pl_eqb x (image_id hash, placement_id pos)))
+  (image_id st hash, placement_id pos)
+    :: filter (fun x => negb (pl_eqb x (image_id st hash, placement_id pos)))
          (if cached st hash then places_of s
-          else filter (fun x => negb (fst x =? image_id hash)) (places_of s)).
+          else filter (fun x => negb (fst x =? image_id st hash)) (places_of s)).
 Proof.
-  intros HI Hwf Hne. pose proof HI as [Hc He Hp Hi Hv Hpc].
+  intros HI Hwf Hne. pose proof HI as [Hc He Hp Hi Hv Hpc Hir].
   rewrite term_step_items by assumption. cbn [pre_store step_items]. unfold draw_items.
   destruct Hne as [Hh Hw]. replace ((im_height img =? 0) || (im_width img =? 0)) with false by lia.
-  unfold cached, places_of. destruct (lookup (image_id hash) (k_imgs st)) as [[img0 hash0]|] eqn:Hl.
+  unfold cached, places_of. destruct (lookup (image_id st hash) (k_imgs st)) as [[img0 hash0]|] eqn:Hl.
   - rewrite (run_put (clear_log s) _ _ _ (content_of img0));
-      [|exact Hp|apply image_id_range|apply placement_id_range|exact (Hi _ _ _ Hl)].
+      [|exact Hp|apply image_id_range, Hir|apply placement_id_range|exact (Hi _ _ _ Hl)].
     cbn [t_places clear_log map fst]. rewrite places_filter. reflexivity.
-  - rewrite (run_draw_fresh (clear_log s) _ _ _ img Hp Hwf (conj Hh Hw) (image_id_range hash) (placement_id_range pos)).
+  - rewrite (run_draw_fresh (clear_log s) _ _ _ img Hp Hwf (conj Hh Hw) (image_id_range st hash Hir) (placement_id_range pos)).
     cbn [t_places clear_log map fst]. rewrite places_filter, map_fst_filter_id. reflexivity.
 Qed.
 
 (* when every error response was genuine, no placement of an uncached id is left: a draw touches nothing else *)
 Theorem draw_places lost st s img hash pos : Inv true st s -> image_wf img -> nonempty img ->
   places_of (term_step lost st s (OpDraw img hash pos)) =
-  (image_id hash, placement_id pos)
-    :: filter (fun x => negb (pl_eqb x (image_id hash, placement_id pos))) (places_of s).
+  (image_id st hash, placement_id pos)
+    :: filter (fun x => negb (pl_eqb x (image_id st hash, placement_id pos))) (places_of s).
 Proof.
   intros HI Hwf Hne. rewrite (draw_places_gen true lost st s img hash pos HI Hwf Hne).
-  unfold cached. destruct (lookup (image_id hash) (k_imgs st)) eqn:Hl; [reflexivity|].
+  unfold cached. destruct (lookup (image_id st hash) (k_imgs st)) eqn:Hl; [reflexivity|].
   f_equal. f_equal. apply filter_all. intros x Hin. unfold places_of in Hin.
   apply in_map_iff in Hin as (p & <- & Hin).
   pose proof (inv_places_cached _ _ _ HI eq_refl p Hin) as Hpc.
-  destruct (fst (fst p) =? image_id hash) eqn:E; [|reflexivity].
+  destruct (fst (fst p) =? image_id st hash) eqn:E; [|reflexivity].
   apply N.eqb_eq in E. unfold place_id in Hpc. rewrite E in Hpc. contradiction.
 Qed.
 
 Theorem erase_places strict lost st s img hash pos : Inv strict st s -> image_wf img ->
   places_of (term_step lost st s (OpErase img hash pos)) =
   match pos with
-  | Some p => filter (fun x => negb (pl_eqb x (image_id hash, placement_id p))) (places_of s)
-  | None => filter (fun x => negb (fst x =? image_id hash)) (places_of s)
+  | Some p => filter (fun x => negb (pl_eqb x (image_id st hash, placement_id p))) (places_of s)
+  | None => filter (fun x => negb (fst x =? image_id st hash)) (places_of s)
   end.
 Proof.
-  intros HI Hwf. pose proof HI as [Hc He Hp Hi Hv Hpc].
+  intros HI Hwf. pose proof HI as [Hc He Hp Hi Hv Hpc Hir].
   rewrite term_step_items by assumption. cbn [pre_store step_items]. unfold places_of.
-  rewrite run_del; [|exact Hp|apply image_id_range|destruct pos; cbn [option_map]; [apply placement_id_range|exact I]].
+  rewrite run_del; [|exact Hp|apply image_id_range, Hir|destruct pos; cbn [option_map]; [apply placement_id_range|exact I]].
   cbn [t_places clear_log]. destruct pos as [p|]; cbn [option_map].
   - apply places_filter.
   - apply places_filter_id.
@@ -564,19 +591,19 @@ Qed.
    any other position (coordinates below 65536, the pair (65534,65535) / (65535,65535) excepted) *)
 Theorem erase_exact strict lost st s img hash pos : Inv strict st s -> image_wf img -> in_dom pos ->
   let s' := term_step lost st s (OpErase img hash (Some pos)) in
-  ~ In (image_id hash, placement_id pos) (places_of s') /\
-  (forall x, In x (places_of s) -> x <> (image_id hash, placement_id pos) -> In x (places_of s')) /\
+  ~ In (image_id st hash, placement_id pos) (places_of s') /\
+  (forall x, In x (places_of s) -> x <> (image_id st hash, placement_id pos) -> In x (places_of s')) /\
   (forall pos', in_dom pos' -> pos' <> pos ->
      ~ (pos = (65534, 65535) /\ pos' = (65535, 65535)) -> ~ (pos = (65535, 65535) /\ pos' = (65534, 65535)) ->
-     In (image_id hash, placement_id pos') (places_of s) ->
-     In (image_id hash, placement_id pos') (places_of s')).
+     In (image_id st hash, placement_id pos') (places_of s) ->
+     In (image_id st hash, placement_id pos') (places_of s')).
 Proof.
   intros HI Hwf Hd s'. unfold s'. rewrite (erase_places strict lost st s img hash (Some pos) HI Hwf).
-  assert (Hkeep : forall x, In x (places_of s) -> x <> (image_id hash, placement_id pos) ->
-            In x (filter (fun x => negb (pl_eqb x (image_id hash, placement_id pos))) (places_of s))).
+  assert (Hkeep : forall x, In x (places_of s) -> x <> (image_id st hash, placement_id pos) ->
+            In x (filter (fun x => negb (pl_eqb x (image_id st hash, placement_id pos))) (places_of s))).
   { intros x Hin Hne. apply filter_In. split; [exact Hin|].
     destruct x as [i p]. unfold pl_eqb. cbn [fst snd].
-    destruct (i =? image_id hash) eqn:E1, (p =? placement_id pos) eqn:E2; try reflexivity.
+    destruct (i =? image_id st hash) eqn:E1, (p =? placement_id pos) eqn:E2; try reflexivity.
     apply N.eqb_eq in E1, E2. subst. contradiction. }
   repeat split.
   - intros Hin. apply filter_In in Hin as [_ Hf]. unfold pl_eqb in Hf. cbn [fst snd] in Hf.
@@ -594,7 +621,8 @@ Proof.
   destruct o as [img hash pos|img hash pos|ev]; cbn [op_wf step_items] in *.
   - destruct (draw st img hash pos) as [b st'] eqn:E. cbn [fst].
     pose proof (parse_draw st img hash pos Hw) as P. rewrite E in P. exact P.
-  - cbn [fst]. apply parse_erase.
+  - destruct (erase st img hash pos) as [b st'] eqn:E. cbn [fst].
+    pose proof (parse_erase st img hash pos) as P. rewrite E in P. exact P.
   - destruct (handle st ev) as [[b st'] r] eqn:E. cbn [fst].
     assert (Hwf : forall id img hash, lookup id (k_imgs st) = Some (img, hash) -> image_wf img)
       by (intros id img hash Hl; apply (Hc id img hash Hl)).
